@@ -71,28 +71,8 @@ FReload ==
      ELSE faultSeen
   /\ Same /\ UNCHANGED faultSeen
 
-\* Recorded finding F40: the commit task swaps the registers (uncommitted -> committed) BEFORE it
-\* saves the metas; when save_metas fails the commit reports the error, but if the caller keeps the
-\* writer, the next meta.json written by a merge publishes the segments of the failed commit with
-\* the old opstamp - a state that is neither the last commit nor the failed one.  Only in that
-\* window (dirtyCommit) an observation that differs from the last commit is attributed to F40.
-FMergeAfterFailedCommit ==
-  /\ Ev.ev = "merge" /\ wopen /\ dirtyCommit /\ "obs" \in DOMAIN Ev
-  /\ ObsConsistent(Ev.obs) /\ ObsDocs(Ev.obs) # commd
-  /\ Known("F40 a merge after a failed commit publishes segments of the failed commit")
-  /\ commd' = ObsDocs(Ev.obs) /\ metaop' = Ev.obs.metaop /\ payload' = Ev.obs.payload
-  /\ UNCHANGED <<pend, lo, wopen, wCreated, dirty, sorted, kf, faultSeen>>
-
-\* F40, second face: the stale in-memory metas of a failed commit are what a background merge writes
-\* back (old opstamp, new segments); a writer created afterwards starts from that opstamp
-FNewWriterAfterFailedCommit ==
-  /\ Ev.ev = "new_writer" /\ Ev.ok /\ ~wopen /\ dirtyCommit
-  /\ "commit_opstamp" \in DOMAIN Ev /\ Ev.commit_opstamp # metaop
-  /\ Known("F40 a merge after a failed commit publishes segments of the failed commit")
-  /\ wopen' = TRUE /\ lo' = Ev.commit_opstamp /\ wCreated' = Ev.commit_opstamp /\ metaop' = Ev.commit_opstamp
-  /\ pend' = commd /\ dirty' = FALSE
-  /\ UNCHANGED <<commd, payload, sorted, kf, faultSeen>>
-
+\* (F40 - a merge after a failed commit published the registers of the failed commit - is repaired:
+\* the updater is killed when save_metas fails, so no action accepts such a publication any more)
 FSummary == Ev.ev = "summary" /\ Same /\ UNCHANGED faultSeen
 
 \* a dropped writer under a fault may leave its lock file if the delete itself failed: the harness
@@ -107,7 +87,7 @@ FStep ==
 \* successful calls follow CoreTrace unchanged; a successful merge keeps the content (TMerge)
 FMergeStep ==
   /\ l <= Len(Rec) /\ l' = l + 1 /\ UNCHANGED calling
-  /\ (FMergeFail \/ FMergeAfterFailedCommit \/ FNewWriterAfterFailedCommit)
+  /\ FMergeFail
 DirtyNext == dirtyCommit' = CASE Ev.ev \in {"commit", "prepare_commit"} /\ ~Ev.ok /\ Ev.err # "nowriter" -> TRUE
                                 [] Ev.ev \in {"reset", "rollback", "prepare_abort", "new_writer", "heal"} -> FALSE
                                 [] OTHER -> dirtyCommit
